@@ -818,6 +818,11 @@ def sc_reshape(P):
         out.append(('%s -> list %s, transpose=False' % (list(dims), t), lambda mk=mk, t=t: ([mk(), list(t)], {'transpose': False}, OPTS(P))))
     for spec, t in (([('a', 'b'), 'c'], ['a', 'b', 'c']), ([('a', 'b'), 'c'], ['b', 'c,a']), (['c', ('a', 'b')], ['a,c', 'b']), ([('a', 'b')], ['a', 'b']), ([('a', 'b')], ['b', 'a'])):
         out.append(('grouped %s -> %s' % (spec, t), lambda spec=spec, t=t: ([grouped_array(P, spec), list(t)], {}, OPTS(P))))
+    # singleton dimensions: kept with their label when requested, dropped when not
+    d1 = (('a', 'b', 'c'), (2, 1, 4))
+    for t in (['a', 'b', 'c'], ['b', 'a', 'c'], ['c', 'b', 'a'], ['a', 'c'], ['c', 'a'], ['a', 'b,c'], ['a,b', 'c'], ['a', 'n1', 'c'], ['b']):
+        out.append(('singleton b: %s -> list %s' % (list(d1[0]), t), lambda t=t: ([A(P, *d1), list(t)], {}, OPTS(P))))
+    out.append(('singleton b: %s -> list %s, transpose=False' % (list(d1[0]), ['a', 'c']), lambda: ([A(P, *d1), ['a', 'c']], {'transpose': False}, OPTS(P))))
     # several groups, with more dimensions before / between / after them
     d5 = (('a', 'b', 'c', 'd', 'e'), (2, 3, 4, 5, 6))
     for t in (['a,b', 'c,d', 'e'], ['a', 'b,c', 'd,e'], ['a,b', 'c', 'd,e'], ['e', 'a,b', 'c,d'], ['a,b', 'c,d,e'], ['b,a', 'd,c', 'e'], ['c,d', 'a,b', 'e'], ['a', 'b,c', 'd', 'e'],
